@@ -262,6 +262,21 @@ static inline int verif_epoll_wait(int epfd, struct epoll_event* ev, int maxev, 
   return ::detsched::epoll_wait_hook(epfd, ev, maxev, timeout);
 }
 
+// readv / writev inside libunifex's I/O contexts: generated faults (fail with a chosen errno) and short transfers
+#include <sys/uio.h>
+static inline ssize_t verif_readv(int fd, const struct iovec* iov, int n) {
+  long f = ::detsched::io_fault(0);
+  if (f > 0) { errno = (int)f; return -1; }
+  if (f < 0 && n == 1 && iov[0].iov_len > 1) { struct iovec v = iov[0]; v.iov_len = iov[0].iov_len / 2; return ::readv(fd, &v, 1); }   // short read
+  return ::readv(fd, iov, n);
+}
+static inline ssize_t verif_writev(int fd, const struct iovec* iov, int n) {
+  long f = ::detsched::io_fault(1);
+  if (f > 0) { errno = (int)f; return -1; }
+  if (f < 0 && n == 1 && iov[0].iov_len > 1) { struct iovec v = iov[0]; v.iov_len = iov[0].iov_len / 2; return ::writev(fd, &v, 1); }   // short write
+  return ::writev(fd, iov, n);
+}
+
 #define atomic verif_atomic
 #define atomic_char verif_atomic_char
 #define atomic_uintptr_t verif_atomic_uintptr_t
@@ -275,5 +290,7 @@ static inline int verif_epoll_wait(int epfd, struct epoll_event* ev, int maxev, 
 #define sleep_for verif_sleep_for
 #define steady_clock verif_steady_clock
 #define epoll_wait verif_epoll_wait
+#define readv verif_readv
+#define writev verif_writev
 
 #endif  // VK_DETSCHED_SHIM_HPP
